@@ -376,6 +376,9 @@ func c03Run(tb ev.TB, rec *ev.Rec, p c03Plan) {
 					res.Backend, res.BeSub = be.AddrInfo, be.SubCluster
 				}
 				cl := []string{"path=rr", fmt.Sprintf("algo=%d", st.Algo)}
+				if up > 0 && down > 0 {
+					cl = append(cl, "availability=mixed")
+				}
 				if len(elig) == 0 {
 					cl = append(cl, "none-eligible")
 				}
@@ -406,6 +409,11 @@ func c03Run(tb ev.TB, rec *ev.Rec, p c03Plan) {
 				mode = "sticky"
 			}
 			cl := []string{"path=gslb", "mode=" + mode}
+			if up > 0 && down > 0 {
+				cl = append(cl, "availability=mixed")
+			} else if down > 0 {
+				cl = append(cl, "availability=all-down")
+			}
 			trace = append(trace, fmt.Sprintf("Balance(key=%q,retry=%d) -> %s", key, st.Req.RetryTime, res))
 			if len(trace) > 40 {
 				trace = trace[len(trace)-40:]
